@@ -23,6 +23,7 @@ pub mod pam {
 mod http;
 mod unixenv;
 mod c43;
+mod c44;
 mod c45;
 mod c46;
 mod c47;
@@ -39,6 +40,7 @@ fn main() {
     let opts = Opts::parse(&args[2..]);
     let rc = match args[1].as_str() {
         "c43" => c43::run(&opts),
+        "c44" => c44::run(&opts),
         "c45" => c45::run(&opts),
         "c46" => c46::run(&opts),
         "c47" => c47::run(&opts),
